@@ -23,7 +23,7 @@ RULE = ('case = (target {return a generated value, return n bytes, raise excepti
 ASSUMPTIONS = ['NaN is excluded (== is the oracle)', 'hang guard 40 s for wait() without timeout']
 SHRINK = 'none'
 TIME_BUDGET = {'quick': 170, 'thorough': 1700}
-REQUIRED = {'quick': {'size<=64K': 12, 'size>208K': 12, 'falsy_result': 30, 'exception': 40, 'not_run': 20, 'route:create': 40, 'main_script': 3},
+REQUIRED = {'quick': {'size<=64K': 12, 'size>208K': 12, 'falsy_result': 30, 'exception': 40, 'not_run': 20, 'route:create': 40, 'main_script': 3, 'timed_wait': 100},
             'thorough': {'size<=64K': 600, 'size>208K': 200, 'falsy_result': 300, 'exception': 400, 'not_run': 200, 'main_script': 30}}
 GUARD = 40.0
 
@@ -51,9 +51,10 @@ def strategy(tier):
                     st.lists(st.one_of(st.integers(0, 9), st.text(max_size=4)), max_size=3))
     ech = st.builds(lambda a, k: {'target': 'echo', 'args': a, 'kwargs': k}, st.lists(_val, max_size=3), st.dictionaries(st.sampled_from(['a', 'b', 'c']), _val, max_size=2))
     base = st.one_of(ret, byt, byt, byt, exc, ech)
-    return st.builds(lambda b, route, run, tnone, ms: dict(b, route=route, run=run, target_none=tnone, main_script=ms), base,
+    return st.builds(lambda b, route, run, tnone, ms, wm: dict(b, route=route, run=run, target_none=tnone, main_script=ms, wait_mode=wm), base,
                      st.sampled_from(['ctor', 'ctor', 'create']), st.sampled_from([None, None, None, True, False]),
-                     st.sampled_from([False] * 9 + [True]), st.sampled_from([None] * 40 + ['point', 'raise', 'plain']))
+                     st.sampled_from([False] * 9 + [True]), st.sampled_from([None] * 40 + ['point', 'raise', 'plain']),
+                     st.sampled_from(['plain', 'plain', 'timed']))
 
 
 def dejson(v):
@@ -181,7 +182,16 @@ def run_case(case, ctx):
                     out.viol('not_run_worker_created_process', site, f'{len(new)} new process(es)')
             t0 = time.monotonic()
             try:
-                ok = bounded(w.wait, GUARD)
+                if case.get('wait_mode') == 'timed':
+                    # the documented alternative: poll with a finite timeout until the worker is done
+                    out.label('timed_wait')
+                    ok = False
+                    for _ in range(6):
+                        ok = bounded(w.wait, GUARD, 5)
+                        if ok:
+                            break
+                else:
+                    ok = bounded(w.wait, GUARD)
             except Blocked:
                 out.viol('wait_never_returned', site, f'wait() without timeout still blocked after {GUARD}s (result size {size})')
                 continue
